@@ -47,8 +47,11 @@ func Project(a *App, kr *Keyring, opts ProjOpts) J {
 		"feeSum": Limbs(vv.FeeSum), "txCount": vv.TxsCnt}
 
 	accts := J{}
+	addrOf := map[string][]byte{}
 	vv.Acct.VerifLedger().VerifConsensusView(func(k ledger.LedgerKey, ac *rctypes.Account) {
-		accts[kr.Name(ac.Address)] = projAcct(ac)
+		n := kr.Name(ac.Address)
+		accts[n] = projAcct(ac)
+		addrOf[n] = append([]byte{}, ac.Address...)
 	})
 	out["accts"] = accts
 
@@ -107,7 +110,7 @@ func Project(a *App, kr *Keyring, opts ProjOpts) J {
 	}
 
 	if opts.EVM {
-		out["evm"] = projEVM(a, kr, accts)
+		out["evm"] = projEVM(a, kr, addrOf)
 	}
 	return out
 }
@@ -251,7 +254,7 @@ func GovDocFields(doc []byte, all bool) J {
 
 // projEVM digests code and storage of every account that has EVM code in a
 // deep copy of the state DB the controller is executing on.
-func projEVM(a *App, kr *Keyring, accts J) J {
+func projEVM(a *App, kr *Keyring, addrOf map[string][]byte) J {
 	out := J{}
 	st := a.Core.VerifView().EVM.VerifStateCopy()
 	if st == nil {
@@ -259,12 +262,12 @@ func projEVM(a *App, kr *Keyring, accts J) J {
 	}
 	var names []string
 	byName := map[string]common.Address{}
-	for hexAddr, name := range kr.names {
-		if _, ok := accts[name]; !ok {
+	for name, addr := range addrOf {
+		if len(addr) != 20 {
 			continue
 		}
 		var ad common.Address
-		copy(ad[:], unhex(hexAddr))
+		copy(ad[:], addr)
 		names = append(names, name)
 		byName[name] = ad
 	}
@@ -284,4 +287,32 @@ func projEVM(a *App, kr *Keyring, accts J) J {
 			"evmBal": LimbsBig(st.GetBalance(ad)), "evmNonce": int(st.GetNonce(ad))}
 	}
 	return out
+}
+
+// StateDigest is a digest of the observable consensus state that is comparable
+// across replicas and processes: an absent account and an empty one are the
+// same; the per-block transaction counter and the EVM block gas pool are not
+// state any property speaks about; names do not depend on appearance order.
+func StateDigest(a *App, kr *Keyring) string {
+	var tok string
+	if pm := Call(func() {
+		p := Project(a, kr.RawView(), ProjOpts{EVM: true})
+		delete(p, "txCount")
+		if vol, ok := p["vol"].(J); ok {
+			delete(vol, "gasPool")
+		}
+		if accts, ok := p["accts"].(J); ok {
+			for k, x := range accts {
+				ac := x.(J)
+				if len(ac["bal"].([]int)) == 0 && ac["nonce"].(int) == 0 && ac["code"].(int) == 0 && ac["name"].(string) == "" && ac["url"].(string) == "" {
+					delete(accts, k)
+				}
+			}
+		}
+		bz, _ := json.Marshal(p)
+		tok = fmt.Sprintf("%x", sha256.Sum256(bz))[:16]
+	}); pm != "" {
+		return "PANIC:" + pm
+	}
+	return tok
 }
